@@ -213,10 +213,10 @@ func parseGroup(node *yaml.Node, schema Schema, offsetLine, offsetColumn int, co
 				return group
 			}
 			for _, lab := range nodes {
-				if !model.LabelName(lab.key.Value).IsValid() || lab.key.Value == model.MetricNameLabel {
+				if !model.LabelName(nodeValue(lab.key)).IsValid() || nodeValue(lab.key) == model.MetricNameLabel {
 					group.Error = ParseError{
 						Line: lab.key.Line,
-						Err:  fmt.Errorf("invalid label name: %s", lab.key.Value),
+						Err:  fmt.Errorf("invalid label name: %s", nodeValue(lab.key)),
 					}
 					return group
 				}
